@@ -340,13 +340,25 @@ class Patched:
         global SCHED
         import mido.ports as mp
         import mido.backends._parser_queue as pq
+        import mido.parser
+        import mido.sockets
+        import mido.tokenizer
         self.mp = mp
         self.pq = pq
         self.saved = (mp.threading, mp.sleep)
-        self.saved_pq = getattr(pq, 'RLock', None)
-        if self.saved_pq is not None:
-            pq.RLock = CoopRLock
-        mp.threading = _ThreadingShim()
+        # every synchronisation primitive the port code may name, in every module it lives in
+        coop = {'RLock': CoopRLock, 'Lock': CoopRLock, 'Event': CoopEvent, 'Condition': CoopCondition}
+        self.saved_names = []
+        for mod in (mp, pq, mido.parser, mido.sockets, mido.tokenizer):
+            for name, repl in coop.items():
+                cur = getattr(mod, name, None)
+                if cur is not None and getattr(cur, '__module__', '').startswith(('threading', '_thread')):
+                    self.saved_names.append((mod, name, cur))
+                    setattr(mod, name, repl)
+            cur = getattr(mod, 'threading', None)
+            if cur is not None and not isinstance(cur, _ThreadingShim):
+                self.saved_names.append((mod, 'threading', cur))
+                setattr(mod, 'threading', _ThreadingShim())
         hook = self.sleep_hook
 
         def sleep():
@@ -359,9 +371,9 @@ class Patched:
 
     def __exit__(self, *a):
         global SCHED
+        for mod, name, cur in reversed(self.saved_names):
+            setattr(mod, name, cur)
         self.mp.threading, self.mp.sleep = self.saved
-        if self.saved_pq is not None:
-            self.pq.RLock = self.saved_pq
         SCHED = None
         return False
 
